@@ -65,6 +65,28 @@ Lemma had_scale_const m n (A : 'M[R]_(m,n)) z g :
 Proof. by apply/matrixP=> r c; rewrite !mxE mulrC. Qed.
 End Stack.
 
+(* the trace as a functional on stacked operators: vec(I)^T vec(X) = tr X *)
+Section TraceFunctional.
+Variable R : fieldType.
+Lemma tr_cvec n (X : 'M[R]_n) : ((cvec (1%:M : 'M[R]_n))^T *m cvec X) = (\tr X)%:M.
+Proof.
+apply/matrixP=> a b; rewrite !ord1 !mxE eqxx mulr1n.
+rewrite (reindex (@mxtens_index _ _)) /=; last first.
+  by exists (@mxtens_unindex _ _)=> x _; rewrite ?mxtens_indexK ?mxtens_unindexK.
+rewrite /mxtrace.
+rewrite [RHS](eq_bigr (fun c => \sum_r (cvec (1%:M : 'M[R]_n))^T 0 (mxtens_index (c, r)) * cvec X (mxtens_index (c, r)) 0)); last first.
+  move=> c _; rewrite (bigD1 c) //= !mxE mxtens_indexK /= eqxx mul1r big1 ?addr0 // => r /negbTE ne.
+  by rewrite !mxE mxtens_indexK /= ne mul0r.
+by rewrite pair_big /=; apply: eq_bigr=> [[c r]] _.
+Qed.
+
+Lemma row0_ext m (w : 'rV[R]_m) : (forall v : 'cV[R]_m, w *m v = 0) -> w = 0.
+Proof.
+move=> H; apply/matrixP=> a b; rewrite ord1 [in RHS]mxE.
+by have /matrixP/(_ 0 0) := H (delta_mx b 0); rewrite -colE !mxE.
+Qed.
+End TraceFunctional.
+
 (* ------------------------------------------------------- meta-theorem *)
 Section Meta.
 Variable R : fieldType.
@@ -91,6 +113,13 @@ Lemma den_ext (e1 e2 : Sexpr) :
 Proof.
 move=> H; apply: mx_ext_cV=> v.
 by rewrite -(unvecK v) !den_act H.
+Qed.
+
+Lemma trace_functional (e : Sexpr) :
+  (forall X, \tr (act e X) = 0) -> (cvec (1%:M : 'M[R]_n))^T *m den e = 0.
+Proof.
+move=> H; apply: row0_ext=> v.
+by rewrite -mulmxA -(unvecK v) den_act tr_cvec H; apply/matrixP=> a b; rewrite !mxE mul0rn.
 Qed.
 
 Lemma act_foldl (T : Type) (f : Sexpr -> T -> Sexpr) (g : T -> 'M[R]_n) X :
